@@ -193,6 +193,36 @@ func Content(r *Rand, class string, w, h, c, p, aux int) []int {
 				}
 			}
 		}
+	case "specks":
+		// flat image with a few samples one level off (coefficients of magnitude 1)
+		base := Pick(r, max/2, max/2+1, 1, max-1, r.Intn(max+1))
+		for i := range s {
+			s[i] = base
+		}
+		k := 1 + r.Intn(7)
+		for i := 0; i < k; i++ {
+			v := base + Pick(r, -1, 1)
+			if v < 0 {
+				v = 1
+			}
+			if v > max {
+				v = max - 1
+			}
+			s[r.Intn(n)] = v
+		}
+	case "primaries":
+		// blocks of pure primaries / secondaries (each channel exactly 0 or max)
+		bs := Pick(r, 1, 2, 4, 8)
+		for y := 0; y < h; y++ {
+			for x := 0; x < w; x++ {
+				m := int(Mix(uint64(x/bs), uint64(y/bs), r.s) % 8)
+				for k := 0; k < c; k++ {
+					if (m>>uint(k%3))&1 == 1 {
+						*at(x, y, k) = max
+					}
+				}
+			}
+		}
 	case "bands":
 		// every row constant; neighbouring rows differ (first-column differences
 		// whose category no other sample of the image uses)
